@@ -1,6 +1,6 @@
 (* C09 — Minimize and Invert partition the sequence exactly. *)
 From Coq Require Import Sorting.Permutation.
-From GTS Require Import Base Arith Loc Region RegionProofs CircProofs.
+From GTS Require Import Base Arith Loc Region RegionProofs MinimizeIdem CircProofs.
 Open Scope Z_scope.
 
 (* forward-oriented, strictly increasing, pairwise disjoint, non-abutting:
@@ -22,6 +22,17 @@ Theorem C09_order_independent : forall r1 r2,
   Permutation (flatten_region r1) (flatten_region r2) -> minimize r1 = minimize r2.
 Proof. exact minimize_order_independent. Qed.
 Print Assumptions C09_order_independent.
+
+(* Minimize is a normal form: a list that is already forward, strictly
+   increasing and non-abutting is returned unchanged, so minimizing the result
+   again (as_region l = the Regions value holding the segments of l) gives the
+   same result *)
+Theorem C09_minimize_normal_form : forall l, wfsegs l -> minimize (as_region l) = l.
+Proof. exact minimize_normal_form. Qed.
+Print Assumptions C09_minimize_normal_form.
+Theorem C09_minimize_idempotent : forall r, minimize (as_region (minimize r)) = minimize r.
+Proof. exact minimize_idempotent. Qed.
+Print Assumptions C09_minimize_idempotent.
 
 Theorem C09_strand_independent : forall h t, flatten_region (Seg h t) = flatten_region (Seg t h).
 Proof. exact flatten_orientation. Qed.
